@@ -415,6 +415,10 @@ func (tps *TPS) waitForDeCommitmentDistribution(ctx context.Context) {
 }
 
 func (tps *TPS) combineShares() PK {
+	// OnMsg may still be invoked concurrently (duplicate or out of phase messages)
+	tps.lock.Lock()
+	defer tps.lock.Unlock()
+
 	for _, party := range tps.parties {
 		if party == tps.Party {
 			continue
